@@ -786,6 +786,10 @@ class ServerSSM(SSM):
 
             self.set_state(ABORTED)
 
+            # an abort the application decided on (AbortException, AbortPDU
+            # with nothing but the context) is an abort sent by the server
+            apdu.apduSrv = True
+
             # send the response to the device
             self.response(apdu)
             return
